@@ -69,3 +69,12 @@ Definition accept_C12_graph (c : gp_obj * usys) (o : jv * list (jv * jv)) : verd
   (jv_eqb (model_write_gp g) written
    && forallb (fun io : jv * jv => match model_read_gp parent (fst io) with Ok g' => jv_eqb (model_write_gp g') (snd io) | Err => jv_eqb JNull (snd io) end) variants,
    S (length variants)).
+
+Definition sy_obj := system_obj str.
+Definition model_write_sy (s : sy_obj) : jv := write_system str (fun t => t) wr12 s.
+Definition model_read_sy (parent : usys) (v : jv) : res sy_obj := read_system str (fun t => Some t) [48%N; 46%N; 48%N] [49%N; 46%N; 48%N] parent v.
+Definition accept_C12_system (c : sy_obj * usys) (o : jv * list (jv * jv)) : verdict :=
+  let '(s, parent) := c in let '(written, variants) := o in
+  (jv_eqb (model_write_sy s) written
+   && forallb (fun io : jv * jv => match model_read_sy parent (fst io) with Ok s' => jv_eqb (model_write_sy s') (snd io) | Err => jv_eqb JNull (snd io) end) variants,
+   S (length variants)).
